@@ -101,6 +101,7 @@ func c20Handlers() []c20Handler {
 		{"LIST-sessions", plain("GET", "/sessions/", "", false)},
 		{"GET-metadata", plain("GET", "/metadata", "", false)},
 		{"SSO-from-X-whose-metadata-validity-has-passed", form("/sso", sso("https://sp-x.example.com/metadata"), true)},
+		{"SSO-from-an-unregistered-SP", form("/sso", sso("https://unknown.example.com/saml2/metadata"), true)},
 	}
 }
 
